@@ -14,6 +14,7 @@ import asyncio
 import collections
 import selectors
 
+from . import core
 from .core import EngineUnsupported, Inconclusive
 from .values import SymBool, SymReal
 
@@ -120,6 +121,7 @@ class VLoop(asyncio.AbstractEventLoop):
                     h = self._ready.popleft()
                     if not h._cancelled:
                         h._run()
+                        core.raise_pending()
                     h = None
                     continue
                 self._timers = [t for t in self._timers if not t._cancelled]
@@ -235,6 +237,7 @@ class StockVLoop(asyncio.SelectorEventLoop):
                     self._vtime = nxt
             self.call_soon(self.stop)
             self.run_forever()
+            core.raise_pending()
         if until is not None and self._vtime < until:
             self._vtime = until
 
